@@ -797,12 +797,10 @@ fn check_case(ctx: &mut Ctx, cc: &CaseCtx) -> Option<(Vec<u8>, HashMap<u32, u32>
             let legit = open_font(&view.data, view.index).and_then(|f| legitimate_error(view, &f, req, &e));
             if let Some(why) = legit {
                 ctx.count("subset_error_legitimate", 1);
-                let _ = &why;
                 ctx.label("subset_error_legitimate", &format!("{}: {} (would exceed klippa's 256 x source-table size limit, lib.rs try_subset)", view.name, e));
+                ctx.sample_by_kind("legitimate-subset-error", json!({"font": view.name, "error": e, "why": why, "n_chars": req.chars.len()}));
                 return None;
             }
-            let is_cmap = e.contains("'cmap'");
-            let _ = is_cmap;
             let tag = e.split('\'').nth(1).unwrap_or("?").to_string();
             let sig = format!("subset-error:{}:{}", tag.trim(), view.name);
             ctx.violation(&sig, cc.detail(json!({"error": e})), None);
@@ -1430,8 +1428,15 @@ pub fn run(ctx: &mut Ctx, args: &Args) {
             eprintln!("{:50} glyphs {:6} chars {:6} settings {:3} {:?} cmap {:?}", view.name, view.n_glyphs, k, view.settings.len(), view.kinds, view.chosen_cmap);
             continue;
         }
-        let mut rng_font = Rng::derive(ctx.seed, &format!("c17-req:{}", view.name), 0);
-        let mut cases: Vec<(Req, bool)> = vec![];
+        // Cases are described first and materialised only by the shard that
+        // runs them (a request can hold a million code points).
+        enum Spec {
+            Everything(u16),
+            Exhaustive(u32, u16, bool),
+            Single(u32, u16, bool),
+            Random(u64),
+        }
+        let mut specs: Vec<Spec> = vec![];
         // subset-to-everything under several flag sets
         let ev_flags: &[u16] = if thorough {
             &[0, F_RETAIN_GIDS, F_NOTDEF_OUTLINE, F_NOTDEF_OUTLINE | F_RETAIN_GIDS | F_NO_HINTING, F_NO_HINTING | F_SET_OVERLAPS]
@@ -1439,21 +1444,30 @@ pub fn run(ctx: &mut Ctx, args: &Args) {
             &[F_NOTDEF_OUTLINE, F_RETAIN_GIDS]
         };
         for f in ev_flags {
-            cases.push((everything_request(view, *f), true));
+            specs.push(Spec::Everything(*f));
         }
         let big = view.n_glyphs > 2000;
+        let huge_charset = k > 50_000;
         if k <= exhaustive_max_chars(thorough) {
             // exhaustive over all subsets of the mapped characters
-            let flagsets: Vec<u16> = if thorough {
-                vec![0, F_RETAIN_GIDS, F_NOTDEF_OUTLINE | F_NO_HINTING, F_RETAIN_GIDS | F_NOTDEF_OUTLINE | F_SET_OVERLAPS]
+            let flagsets: &[u16] = if thorough {
+                &[
+                    0,
+                    F_RETAIN_GIDS,
+                    F_NOTDEF_OUTLINE | F_NO_HINTING,
+                    F_RETAIN_GIDS | F_NOTDEF_OUTLINE | F_SET_OVERLAPS,
+                    F_NOTDEF_OUTLINE,
+                    F_RETAIN_GIDS | F_NO_HINTING,
+                    F_SET_OVERLAPS | F_GLYPH_NAMES | F_NO_LAYOUT_CLOSURE,
+                    F_RETAIN_GIDS | F_NOTDEF_OUTLINE | F_NO_HINTING | F_SET_OVERLAPS | F_PASSTHROUGH,
+                ]
             } else {
-                vec![0, F_RETAIN_GIDS]
+                &[0, F_RETAIN_GIDS]
             };
             for mask in 0u32..(1u32 << k) {
-                let chars: Vec<u32> = (0..k).filter(|i| mask >> i & 1 == 1).map(|i| view.mappings[i].0).collect();
-                for f in &flagsets {
+                for f in flagsets {
                     let idem = thorough || (mask.wrapping_mul(2654435761) >> 16) % 4 == 0;
-                    cases.push((Req { chars: chars.clone(), gids: vec![], flags: *f, shape: "exhaustive-chars" }, idem));
+                    specs.push(Spec::Exhaustive(mask, *f, idem));
                 }
             }
             if ctx.shard.0 == 0 {
@@ -1469,32 +1483,53 @@ pub fn run(ctx: &mut Ctx, args: &Args) {
             let stride = if thorough || view.n_glyphs <= 1400 { 1 } else { (view.n_glyphs / 400).max(1) };
             let mut g = 0;
             while g < view.n_glyphs {
-                let fl: &[u16] = if thorough { &[0, F_RETAIN_GIDS | F_NOTDEF_OUTLINE] } else if g % 2 == 0 { &[0] } else { &[F_RETAIN_GIDS | F_NOTDEF_OUTLINE] };
+                let fl: &[u16] = if thorough {
+                    &[0, F_RETAIN_GIDS | F_NOTDEF_OUTLINE]
+                } else if g % 2 == 0 {
+                    &[0]
+                } else {
+                    &[F_RETAIN_GIDS | F_NOTDEF_OUTLINE]
+                };
                 for f in fl {
-                    cases.push((Req { chars: vec![], gids: vec![g], flags: *f, shape: "gid:single" }, thorough && !big));
+                    specs.push(Spec::Single(g, *f, thorough && !big));
                 }
                 g += stride;
             }
         }
-        let n_random = if k <= exhaustive_max_chars(thorough) {
-            ctx.tier.pick(100, 2500)
+        let n_random: u64 = if huge_charset {
+            ctx.tier.pick(100, 600)
+        } else if k <= exhaustive_max_chars(thorough) {
+            ctx.tier.pick(300, 8000)
         } else if big {
-            ctx.tier.pick(200, 8000)
+            ctx.tier.pick(600, 24000)
         } else {
-            ctx.tier.pick(700, 30000)
+            ctx.tier.pick(2000, 100000)
         };
-        for _ in 0..n_random {
-            let r = random_request(view, &mut rng_font);
-            let idem = if big { rng_font.chance(1, 3) } else { true };
-            cases.push((r, idem));
+        for i in 0..n_random {
+            specs.push(Spec::Random(i));
         }
-        for (req, idem) in &cases {
+        for spec in &specs {
             let mine = ctx.mine(item);
             item += 1;
             if !mine {
                 continue;
             }
-            run_one(ctx, view, req, *idem);
+            let (req, idem) = match spec {
+                Spec::Everything(f) => (everything_request(view, *f), true),
+                Spec::Exhaustive(mask, f, idem) => {
+                    let chars: Vec<u32> = (0..k).filter(|i| mask >> i & 1 == 1).map(|i| view.mappings[i].0).collect();
+                    (Req { chars, gids: vec![], flags: *f, shape: "exhaustive-chars" }, *idem)
+                }
+                Spec::Single(g, f, idem) => (Req { chars: vec![], gids: vec![*g], flags: *f, shape: "gid:single" }, *idem),
+                Spec::Random(i) => {
+                    // one independent stream per case: no dependence on the shard count
+                    let mut rng = Rng::derive(ctx.seed, &format!("c17-req:{}", view.name), *i);
+                    let r = random_request(view, &mut rng);
+                    let idem = if big || huge_charset { rng.chance(1, 3) } else { true };
+                    (r, idem)
+                }
+            };
+            run_one(ctx, view, &req, idem);
         }
         // drop the observation cache of this font
         view.cache.borrow_mut().clear();
